@@ -62,6 +62,10 @@ class Gen:
         self.ops = []
 
     def emit(self, op):
+        # a mailbox name is an astring: some commands write it as a bare atom (the interpreter falls back to the quoted
+        # form when the name does not allow it)
+        if ("name" in op or "mbox" in op or "dst" in op) and op.get("actor") is None and self.r.random() < self.p.get("bare_p", 0.2):
+            op["bare"] = True
         self.ops.append(op)
 
     def posset(self, n, allow_bad=True):
@@ -195,12 +199,12 @@ class Gen:
         r = self.r
         if kind == "create":
             name = self.ns_name()
-            if r.random() < 0.1:
-                name = r.choice(("INBOX", "inbox", "InBoX", "123", "a/", "/a"))
+            if r.random() < 0.14:
+                name = r.choice(("INBOX", "inbox", "InBoX", "123", "a/", "/a", "a/2024", "a/7/b", ".", " "))
             parts = name.strip("/").split("/")
             for j in range(1, len(parts) + 1):
                 pn = "/".join(parts[:j])
-                if pn and pn not in self.names and pn.lower() != "inbox" and not pn.isdigit():
+                if pn and pn not in self.names and pn.lower() != "inbox" and not pn.isdigit() and name not in (".", " "):
                     self.names.append(pn)
             return {"s": s, "op": "create", "name": name}
         if kind == "delete":
@@ -223,7 +227,11 @@ class Gen:
                 new = old + "/" + "sub"  # into own subtree
             elif x < 0.2:
                 old = r.choice(("INBOX", "inbox"))
-            if old in self.names and new not in self.names and old.lower() != "inbox" and not new.startswith(old + "/"):
+            elif x < 0.27:
+                new = r.choice(("INBOX", "Inbox", "inbox", "5", "a/12", " ", "."))
+            if new in (".", " "):
+                pass  # refused: the name pool is unchanged
+            elif old in self.names and new not in self.names and old.lower() != "inbox" and not new.startswith(old + "/"):
                 ren = [n for n in self.names if n == old or n.startswith(old + "/")]
                 for n in ren:
                     self.names.remove(n)
@@ -241,6 +249,8 @@ class Gen:
             return {"s": s, "op": "rename", "name": old, "to": new}
         if kind in ("subscribe", "unsubscribe"):
             name = self.ns_name(existing=r.random() < 0.85)
+            if r.random() < 0.04:
+                name = "."  # the mail directory itself is not a mailbox
             return {"s": s, "op": kind, "name": name}
         if kind in ("list", "lsub"):
             ref = r.choice(("", "", "", "a/", "a", "x.y/"))
@@ -253,7 +263,7 @@ class Gen:
                 ))
             return op
         if kind == "status":
-            return {"s": s, "op": "status", "mbox": self.ns_name(existing=r.random() < 0.9)}
+            return {"s": s, "op": "status", "mbox": "." if r.random() < 0.04 else self.ns_name(existing=r.random() < 0.9)}
         raise ValueError(kind)
 
 
